@@ -4,16 +4,20 @@ def stages(tier):
     return [
         {"name": "unit", "cmd": "unit", "args": ["-prop", "C02"], "check": "Check.Key.check_key",
          "timeout": 300, "timeout_thorough": 1800},
+        {"name": "e2e", "cmd": "e2e02", "args": [], "check": "Check.KeyE2E.check_served",
+         "timeout": 300, "timeout_thorough": 1800},
     ]
 
 TRUSTED = [
     "model: Model/Key.v mirrors cache/cache_key.go (MakeFromRequest, normalizePath); the pre-hash string is captured from MakeFromRequest's own debug record through the verif hook cache.VerifKeyString and compared with key_string on every generated request",
     "library contract: Go's path.Clean = clean_go (segment-level model), compared on every string over {/,.,a,|} up to length 7 (quick) / 8 (thorough) and on random longer paths on every run",
     "requests are built by the real http.ReadRequest from raw request lines, so the Path/RawQuery split and percent-decoding are net/http's own",
+    "e2e stage (harness/cmd/e2e02): pairs of GETs through the real proxy, A stored then B; 'B was answered with A's body without an origin contact' is the observable of sharing an entry",
 ]
 ASSUMPTIONS = [
     "BLAKE2b-256 is collision-free on the key strings that occur: the theorems are about the pre-hash string, the harness compares Hex values",
     "hosts are ASCII (Go's strings.ToLower is Unicode-aware, the model folds ASCII letters only); r.URL.Path is empty, '*' or starts with '/' (what net/http delivers)",
-    "the 'path' of the statement is the decoded r.URL.Path and the query is r.URL.RawQuery, as in the statement's quantifier (method, Host, path, raw query)",
+    "the 'path' of the statement is the path as it is sent upstream, r.URL.EscapedPath() (so /a%2Fb and /a/b are different resources, as they are for the origin), and the query is r.URL.RawQuery; percent-encoded dots are data, only literal dot-segments are removed",
+    "e2e stage: the origin identifies request-targets exactly up to literal dot-segments and duplicate slashes (a realistic server), and echoes what it identified",
     "dot-segment removal follows RFC 3986 5.2.4 (a final '/.' or '/..' leaves a trailing '/'), applied after dropping empty segments",
 ]
